@@ -153,6 +153,17 @@ pub fn ec_private_key(d: &[u8; 32], with_params: bool, public: Option<&[u8]>) ->
     seq(&parts)
 }
 
+/// PKCS#8 document whose private-key OCTET STRING and public-key BIT STRING carry arbitrary bytes (for malformed-length tests)
+pub fn pkcs8_raw(d: &[u8], public: Option<&[u8]>) -> Vec<u8> {
+    let mut parts = vec![integer(&BigUint::from(1u32)), tlv(0x04, d)];
+    if let Some(p) = public {
+        let mut bits = vec![0u8];
+        bits.extend_from_slice(p);
+        parts.push(tlv(0xA1, &tlv(0x03, &bits)));
+    }
+    seq(&[integer(&BigUint::from(0u32)), alg_id(), tlv(0x04, &seq(&parts))])
+}
+
 /// PKCS#8 PrivateKeyInfo wrapping an ECPrivateKey.
 pub fn pkcs8(d: &[u8; 32], with_params: bool, public: Option<&[u8]>) -> Vec<u8> {
     seq(&[integer(&BigUint::from(0u32)), alg_id(), tlv(0x04, &ec_private_key(d, with_params, public))])
